@@ -22,7 +22,9 @@ RULE = (
     "lattice incl. the empty prefix, any delimiter) built by constructor or add_record in a random order, "
     "queried with boundary strings derived from it; every parse_uri/compress/is_uri return is compared with a "
     "linear-scan longest-prefix model, and the same record set is rebuilt in other permutations (all of them up "
-    "to 3 records, sampled above) to compare answers. A key = overlap-forest shape + query class + build "
+    "to 3 records, sampled above) to compare answers; in every second case the record set is also registered step by "
+    "step (URI synonyms sometimes arriving later through a merge) while the same boundary strings are asked before and "
+    "after every registration. A key = overlap-forest shape + query class + build "
     "method; non-trivial = at least 2 registered prefixes match the query (a real longest-match decision) or "
     "the query is a registered prefix, one character short of one, or one character past one."
 )
@@ -96,3 +98,35 @@ def run_case(ctx, g, rng):
                                   first=answers[q], second=a)
     else:
         probe.evaluated("order-independence", 0)
+    # histories: the same strings are asked before and after every registration (a lookup that remembers an
+    # answer from before a nested prefix or synonym arrived gives itself away only this way)
+    if n >= 2 and g % 2 == 0:
+        hq = [q for q in qs if qclass(sp, q, allu) is not None][:30] + qs[:6]
+        c3 = api.Converter([], delimiter=d)
+        order = rng.sample(recs, k=n)
+        steps = []
+        for r in order:
+            if r.usyn and rng.random() < 0.5:  # canonical part first, the URI synonyms arrive later by merge
+                steps.append((r._replace(usyn=()), False))
+                steps.append((r._replace(uri_prefix=r.usyn[0], usyn=r.usyn[1:], psyn=()), True))
+            else:
+                steps.append((r, False))
+        rng.shuffle(steps)
+        seen_prefixes = set()
+        for r, _ in steps:
+            for q in hq:
+                call(c3.compress, q)
+                call(c3.parse_uri, q, return_none=True)
+                call(c3.is_uri, q)
+            merge = r.prefix in seen_prefixes
+            call(c3.add_record, gen.mk_record(api, r), merge=merge)
+            seen_prefixes.add(r.prefix)
+            probe.S.counters["wl:history-steps"] += 1
+        for q in hq:
+            a = repr((call(c3.parse_uri, q, return_none=True), call(c3.compress, q), call(c3.is_uri, q)))
+            probe.evaluated("order-independence")
+            if spec.is_unique(spec.snapshot(c3)) and sorted(map(spec.norm, spec.snapshot(c3)), key=repr) == sorted(map(spec.norm, recs), key=repr) and a != answers[q]:
+                violation(["C01"], "order-independence", "answer-depends-on-queries-made-before-registration",
+                          records=[spec.rec_dict(r) for r in recs], delimiter=d, query=q, first=answers[q], second=a,
+                          steps=[spec.rec_dict(r) for r, _ in steps])
+        probe.note_key(f"history:{shape}", True)
